@@ -220,7 +220,7 @@ func main() {
 		streams = []Stream{s}
 	} else {
 		streams = corpus(a.Tier)
-		n := a.Pick(56, 600)
+		n := a.Pick(92, 800)
 		for i := 0; i < n; i++ {
 			r := rng.Fork()
 			kind := []string{"ts", "ts", "ts", "tcp", "tcp", "ws", "ws", "rev"}[i%8]
@@ -300,7 +300,7 @@ func main() {
 		res.Sample(slim)
 		res.Cases = append(res.Cases, slim)
 	}
-	hdr := "From Relay Require Import Base.Prelude Model.Ingest Corr.C17."
+	hdr := "From Coq Require Import Uint63.\nFrom Relay Require Import Base.Prelude Model.Ingest Corr.C17."
 	if _, err := lib.WriteShards(a.Out, hdr, "case", coq, res.ShardSize); err != nil {
 		fmt.Fprintln(os.Stderr, err)
 		os.Exit(2)
